@@ -70,7 +70,7 @@ InitCtx(r) ==
     prevMem |-> <<0, 0>>, prevTrk |-> <<>>, prevSnap |-> <<>>,
     attr |-> [q \in 0..(r.nq - 1) |-> <<>>],
     batches |-> <<>>, embeds |-> {},
-    crashfree |-> TRUE, sub |-> FALSE, subprops |-> {}, step |-> 0, dead |-> FALSE ]
+    crashfree |-> r.prepop = 0, sub |-> FALSE, subprops |-> {}, step |-> 0, dead |-> FALSE ]
 
 NoCtx == [run |-> -1]
 
@@ -130,7 +130,7 @@ StreamPos(w) == w[1] * FileSize + w[2]
 BytesViol(r, c) ==
   IF r.res.k # "ok" \/ c.cur.op \in {"restart", "persist", "none"} THEN {}
   ELSE  (IF r.res.wal # WBytes(r.io) THEN {"wal_bytes_written differs from bytes written"} ELSE {})
-   \cup (IF "st" \in DOMAIN r /\ c.hasPrev /\ StreamPos(r.st.w) - StreamPos(c.prevW) # r.res.wal
+   \cup (IF "st" \in DOMAIN r /\ c.hasPrev /\ c.crashfree /\ StreamPos(r.st.w) - StreamPos(c.prevW) # r.res.wal
          THEN {"wal_bytes_written differs from cursor advance"} ELSE {})
    \cup (IF (r.res.wal = 0) # (IoTouches(r.io) = {}) THEN {"wal_bytes_written is 0 iff nothing written fails"} ELSE {})
 
@@ -402,6 +402,111 @@ TrDamage ==
            ELSE UNCHANGED <<ctx, saved>>
   /\ UNCHANGED refObs
 
+(* C11: an I/O failure at any listing / open / read call of recovery is reported as an I/O error, promptly *)
+TrFault ==
+  /\ R.ev = "fault"
+  /\ LET V == IF R.struck > 0 /\ ~(R.out = "err" /\ R.errkind = "io")
+              THEN {<<"C11", "I/O failure at " \o R.site \o " call " \o ToString(R.k) \o
+                            (IF R.forever = 1 THEN " (persistent, " ELSE " (transient, ") \o R.kind \o
+                            ") during recovery: open returned " \o R.out \o
+                            (IF R.out = "err" THEN " " \o R.errkind ELSE "")>>}
+              ELSE {}
+     IN /\ Report(V)
+        /\ nviol' = nviol + Cardinality(V)
+  /\ UNCHANGED <<ctx, saved, refObs>>
+
+(* C17: only regular files named wal-<20 decimal digits> (value within u64) are WAL files *)
+WalPrefix == <<119, 97, 108, 45>>
+MaxU64Digits == <<1, 8, 4, 4, 6, 7, 4, 4, 0, 7, 3, 7, 0, 9, 5, 5, 1, 6, 1, 5>>
+LexLeq(a, b) ==
+  LET RECURSIVE L(_)
+      L(i) == IF i > Len(a) THEN TRUE ELSE IF a[i] < b[i] THEN TRUE ELSE IF a[i] > b[i] THEN FALSE ELSE L(i + 1)
+  IN L(1)
+IsWalName(n) ==
+  /\ Len(n) = 24
+  /\ SubSeq(n, 1, 4) = WalPrefix
+  /\ \A i \in 5..24 : n[i] >= 48 /\ n[i] <= 57
+  /\ LexLeq([i \in 1..20 |-> n[i + 4] - 48], MaxU64Digits)
+
+(* value of a 20-digit sequence when it is small, else -1 *)
+DigitsVal(d) ==
+  IF \E i \in 1..11 : d[i] # 0 THEN -1
+  ELSE LET RECURSIVE V(_, _)
+           V(i, acc) == IF i > 20 THEN acc ELSE V(i + 1, acc * 10 + d[i])
+       IN V(12, 0)
+
+TrName ==
+  /\ R.ev = "name"
+  /\ LET expected == IsWalName(R.bytes) /\ R.kind = "file"
+         V ==  (IF (R.accepted = 1) # expected
+                THEN {<<"C17", IF expected THEN "a regular file named wal-<20 digits> was not treated as a WAL file"
+                                ELSE "a directory entry that is not a regular file named wal-<20 digits> was treated as a WAL file (" \o R.kind \o ")">>}
+                ELSE {})
+          \cup (IF ~expected /\ R.untouched = 0 THEN {<<"C17", "a foreign directory entry was modified or removed (" \o R.kind \o ")">>} ELSE {})
+     IN /\ Report(V)
+        /\ nviol' = nviol + Cardinality(V)
+  /\ UNCHANGED <<ctx, saved, refObs>>
+
+SeqToSet(sq) == {sq[i] : i \in 1..Len(sq)}
+TrDirHist ==
+  /\ R.ev = "dirhist"
+  /\ LET initial == [i \in 1..Len(R.initial) |-> DigitsVal(R.initial[i])]
+         created == [i \in 1..Len(R.created) |-> DigitsVal(R.created[i])]
+         opened == [i \in 1..Len(R.opened) |-> DigitsVal(R.opened[i])]
+         unlinked == [i \in 1..Len(R.unlinked) |-> DigitsVal(R.unlinked[i])]
+         MaxS(S) == CHOOSE x \in S : \A y \in S : x >= y
+         known == SeqToSet(initial) \cup SeqToSet(created)
+         createdBad == \E i \in 1..Len(created) :
+                          created[i] # MaxS(SeqToSet(initial) \cup {created[j] : j \in 1..(i - 1)}) + 1
+         V ==  (IF R.foreign_ok # 1 THEN {<<"C17", "a foreign directory entry was modified or removed during a history with roll-over and GC">>} ELSE {})
+          \cup (IF R.order_ok # 1 THEN {<<"C17", "WAL files were not replayed in numeric order">>} ELSE {})
+          \cup (IF \E i \in 1..Len(R.final) : ~IsWalName(R.final[i]) /\ ~(\E j \in 1..Len(R.foreign) : R.foreign[j] = R.final[i])
+                THEN {<<"C17", "the library left a directory entry that is not named wal-<20 digits>">>} ELSE {})
+          \cup (IF Len(R.listed) > 0 /\ [i \in 1..Len(R.listed[1]) |-> DigitsVal(R.listed[1][i])] # initial
+                THEN {<<"C17", "the WAL files listed at open are not exactly the regular files named wal-<20 digits>">>} ELSE {})
+          \cup (IF createdBad THEN {<<"C17", "a created WAL file is not numbered last + 1">>} ELSE {})
+          \cup (IF ~(SeqToSet(opened) \subseteq known) \/ ~(SeqToSet(unlinked) \subseteq known)
+                THEN {<<"C17", "a file that is not a tracked WAL file was opened or removed">>} ELSE {})
+          \cup (IF \E i \in 1..(Len(unlinked) - 1) : unlinked[i] >= unlinked[i + 1]
+                THEN {<<"C17", "WAL files were not removed oldest first">>} ELSE {})
+     IN /\ Report(V)
+        /\ nviol' = nviol + Cardinality(V)
+  /\ UNCHANGED <<ctx, saved, refObs>>
+
+(* C18: a history and its projection onto one queue agree on everything that queue returns *)
+TrPair ==
+  /\ R.ev = "pair"
+  /\ LET V == IF R.aborted = 1 THEN {<<"C18", "a run of the pair aborted">>}
+              ELSE IF Len(R.full) # Len(R.proj) THEN {<<"C18", "the projected history has a different number of observations">>}
+              ELSE {<<"C18", "queue " \o ToString(R.q) \o ": result or content differs between the history and its projection (observation " \o ToString(i) \o ", " \o R.full[i].op \o ")">> :
+                       i \in {i \in 1..Len(R.full) : R.full[i] # R.proj[i]}}
+     IN /\ Report(V)
+        /\ nviol' = nviol + Cardinality(V)
+  /\ UNCHANGED <<ctx, saved, refObs>>
+
+TrPairCrash ==
+  /\ R.ev = "pairc"
+  /\ LET V == IF R.out # "ok" THEN {<<"C18", "open failed on a crash image of the full history">>}
+              ELSE IF R.got # R.want
+                   THEN {<<"C18", "queue " \o ToString(R.q) \o ": after a crash " \o (IF R.incall = 1 THEN "inside a call addressed to another queue" ELSE "between calls") \o " its recovered content differs from the projected history">>}
+                   ELSE {}
+     IN /\ Report(V)
+        /\ nviol' = nviol + Cardinality(V)
+  /\ UNCHANGED <<ctx, saved, refObs>>
+
+(* C07 at the record layer: layout = Frames!FlatAll at the real constants, read back = written *)
+TrFrames ==
+  /\ R.ev = "frames"
+  /\ LET exp == FlatAll(R.start, R.lens, 1, <<>>, <<>>)
+         V ==  (IF R.start # R.want_start THEN {<<"C07", "the writer did not reach the start cursor through a filler entry">>} ELSE {})
+          \cup (IF R.errors # 0 \/ R.nread # R.nfill + Len(R.lens) \/ R.read # R.wrote
+                THEN {<<"C07", "entries are not read back identical and in order">>} ELSE {})
+          \cup (IF R.ws # exp.ws THEN {<<"C07", "frame layout differs from the specification (padding, frame sizes or types)">>} ELSE {})
+          \cup (IF R.reported # exp.costs \/ R.end # exp.pos THEN {<<"C15", "bytes reported by write_record differ from the specification">>} ELSE {})
+     IN /\ Report(V)
+        /\ nviol' = nviol + Cardinality(V)
+  /\ UNCHANGED <<ctx, saved, refObs>>
+
 TrPop ==
   /\ R.ev = "pop"
   /\ ctx' = saved
@@ -411,7 +516,7 @@ TrPop ==
 TraceNext ==
   /\ l <= NLines
   /\ l' = l + 1
-  /\ \/ TrRun \/ TrInit \/ TrBegin \/ TrEnd \/ TrCrash \/ TrPop \/ TrDamage
+  /\ \/ TrRun \/ TrInit \/ TrBegin \/ TrEnd \/ TrCrash \/ TrPop \/ TrDamage \/ TrFault \/ TrName \/ TrDirHist \/ TrPair \/ TrPairCrash \/ TrFrames
 
 TraceInit ==
   /\ l = 1
